@@ -24,6 +24,8 @@ type SpecCase struct {
 	MaxPaths       int          `json:"max_paths,omitempty"`
 	MaxSteps       int          `json:"max_steps,omitempty"`
 	MaxMapPerm     int          `json:"max_map_perm,omitempty"`
+	ByteEnum       bool         `json:"byte_enum,omitempty"`
+	OrderPolicies  int          `json:"order_policies,omitempty"`
 	WitnessEvery   int          `json:"witness_every,omitempty"`
 	What           string       `json:"what,omitempty"`
 }
@@ -113,7 +115,7 @@ func Check(cfg Config, prop string) int {
 			}
 		}
 		for _, ps := range params {
-			c := Case{Pkg: sc.Pkg, Func: sc.Func, Params: ps, MaxPaths: sc.MaxPaths, MaxSteps: sc.MaxSteps, MaxMapPerm: sc.MaxMapPerm, Reach: sc.Reach, WitnessEvery: sc.WitnessEvery}
+			c := Case{Pkg: sc.Pkg, Func: sc.Func, Params: ps, MaxPaths: sc.MaxPaths, MaxSteps: sc.MaxSteps, MaxMapPerm: sc.MaxMapPerm, ByteEnum: sc.ByteEnum, OrderPolicies: sc.OrderPolicies, Reach: sc.Reach, WitnessEvery: sc.WitnessEvery}
 			if c.WitnessEvery == 0 {
 				if cfg.Tier == "thorough" {
 					c.WitnessEvery = 97
